@@ -75,6 +75,34 @@ func (m *Machine) binop(fr *frame, op token.Token, a, b Value, pos token.Pos) Va
 				return IntV{sym.IDiv(x.P, y.P)}
 			}
 			return IntV{sym.IMod(x.P, y.P)}
+		case token.AND, token.OR, token.XOR, token.AND_NOT, token.SHL, token.SHR:
+			// bit operations: on closed constants only (sizes are concrete in labelled-element mode); a left shift by
+			// a constant is a multiplication for every operand
+			cx, ok1 := x.P.Const()
+			cy, ok2 := y.P.Const()
+			if ok1 && ok2 {
+				switch op {
+				case token.AND:
+					return IntC(cx & cy)
+				case token.OR:
+					return IntC(cx | cy)
+				case token.XOR:
+					return IntC(cx ^ cy)
+				case token.AND_NOT:
+					return IntC(cx &^ cy)
+				case token.SHL:
+					if cy >= 0 && cy < 62 {
+						return IntC(cx << uint(cy))
+					}
+				case token.SHR:
+					if cy >= 0 && cy < 64 {
+						return IntC(cx >> uint(cy))
+					}
+				}
+			}
+			if op == token.SHL && ok2 && cy >= 0 && cy < 62 {
+				return IntV{x.P.Mul(sym.PInt(1 << uint(cy)))}
+			}
 		case token.EQL:
 			return boolOf(sym.IntCond(sym.CEq(x.P, y.P)))
 		case token.NEQ:
